@@ -99,7 +99,7 @@ def parseStep (j : Json) : Except String Step := do
   | "sparsify" => pure (.sparsify (← bool (← field j "c")) (← bool (← field j "a")))
   | "densify" =>
     let m ← str (← field j "m")
-    let meth ← if m == "lookup" then pure DMethod.lookup else do
+    let meth ← if m == "lookup" then pure (DMethod.lookup (← strList (fieldD j "prior" (Json.arr #[])))) else do
       let tbl ← (← arr (fieldD j "hash" (Json.arr #[]))).mapM fun e => do
         match e with
         | .arr #[k, i] => pure ((← str k), (← nat i))
